@@ -36,6 +36,10 @@ pub struct PartP {
     pub work_us: Option<u64>,
     /// how long winding down takes once notified
     pub graceful_us: u64,
+    /// time between the registration and the first wait for the notification (a participant
+    /// that sets itself up first: a submission may fall in between and must still reach it)
+    #[serde(default)]
+    pub setup_us: u64,
 }
 
 #[derive(Clone, Debug, Serialize, Deserialize)]
@@ -136,6 +140,7 @@ impl Scenario for ShutdownScn {
                     // somebody who registers after the submission never hears of it: he must end by himself
                     work_us: if late || rng.chance(1, 3) { Some(rng.size(0, 300_000)) } else { None },
                     graceful_us: if rng.chance(1, 3) { 0 } else { rng.size(1, 100_000) },
+                    setup_us: 0,
                 }
             })
             .collect();
@@ -181,6 +186,13 @@ impl Scenario for ShutdownScn {
         };
         let mut plan = plan;
         plan.service_busy = plan.service_sessions.iter().map(|(speed, h2, _)| *speed && !*h2 && rng.chance(1, 2)).collect();
+        // drawn last, so that plans of earlier generations keep their other dimensions
+        for p in plan.parts.iter_mut() {
+            if p.register_at_us < submit_at_us && rng.chance(1, 2) {
+                // half of them straddle the submission
+                p.setup_us = if rng.chance(1, 2) { (submit_at_us - p.register_at_us) + rng.size(0, 20_000) } else { rng.size(1, 50_000) };
+            }
+        }
         to_plan(&plan)
     }
 
@@ -392,6 +404,9 @@ async fn run(plan: SPlan) -> Obs {
                 let mut g = o.lock().unwrap();
                 g.parts[k].registered_at = Some(world::now_us());
                 g.parts[k].had_guard = me.has_guard();
+            }
+            if p.setup_us > 0 {
+                sleep_us(p.setup_us).await;
             }
             let work = async {
                 match p.work_us {
@@ -797,12 +812,16 @@ fn judge(plan: &SPlan, o: &Obs, out: &mut Outcome) {
             out.violate("C19", "shutdown:part:notification-error", format!("participant {}: {}", k, e));
         }
         if before_submit {
-            let worked_until = p.work_us.map(|w| reg + w);
+            let waits_from = reg + p.setup_us;
+            let worked_until = p.work_us.map(|w| waits_from + w);
             let should_notice = worked_until.map(|w| w > ts + eps).unwrap_or(true);
+            if p.setup_us > 0 {
+                out.cell(format!("shutdown:part:first-wait-{}-submission", if waits_from > ts { "after" } else { "before" }));
+            }
             if should_notice && po.notified_at.is_none() {
                 out.violate(
                     "C19",
-                    format!("shutdown:part:not-notified{}", if plan.submit_twice { ":submitted-twice" } else { "" }),
+                    format!("shutdown:part:not-notified{}{}", if plan.submit_twice { ":submitted-twice" } else { "" }, if waits_from > ts { ":first-wait-after-submission" } else { "" }),
                     format!("participant {} registered at {} (submission at {}), still working, never saw the notification", k, reg, ts),
                 );
             }
@@ -810,8 +829,8 @@ fn judge(plan: &SPlan, o: &Obs, out: &mut Outcome) {
                 if n + eps < ts {
                     out.violate("C19", "shutdown:part:notified-before-submission", format!("participant {} notified at {}, submission at {}", k, n, ts));
                 }
-                if n > ts + eps {
-                    out.violate("C19", "shutdown:part:notified-late", format!("participant {} notified at {}, submission at {}", k, n, ts));
+                if n > ts.max(waits_from) + eps {
+                    out.violate("C19", "shutdown:part:notified-late", format!("participant {} notified at {}, submission at {}, waiting from {}", k, n, ts, waits_from));
                 }
             }
         } else if po.notified_at.is_some() && reg > ts {
